@@ -115,10 +115,10 @@ def check(run):
     # colatitude sweep at the largest ell: addition theorem on every ell (cheap) + oracle at large |m|; deeper when a proof
     # obligation or the bitwise correspondence is broken (failing-input search)
     deep = bool(run.broken)
-    step = 5 if (deep or not quick) else 15
+    step = 5 if deep else (10 if not quick else 15)
     sweep = [(f"colat-{d}", (math.cos(math.radians(d) / 2), 0.0, math.sin(math.radians(d) / 2), 0.0)) for d in range(step, 180, step)]
     gap_Y(run, [(big, 2, [0, -2] if deep else [-2])], sweep, 3 if deep else 1, big_m=True)
-    gap_Y(run, [(big, 2, [-2, 0] if quick else [-2, -1, 0, 2])], (pole_focus[:5] + gen[:2]) if quick else (pole_focus + gen[:6]), 1 if quick else 2)
+    gap_Y(run, [(big, 2, [-2, 0] if quick else [-2, 0, 2])], (pole_focus[:5] + gen[:2]) if quick else (pole_focus[:8] + gen[:3]), 1)
     run.assumptions += ["rounding bound and finiteness at ell>1000 are checked by oracle sampling (no theorem); exact zeros below |s| are proved (Routes.sYlm_low_exact_zero)",
                         "addition theorem is a consequence of unitarity of D, which is not proved (DESIGN.md §5)"]
 
